@@ -567,19 +567,49 @@ func c13(x *Ctx) {
 			name := T.Obj().Name()
 			ucs := eng.FieldIs("config", name, "UseClusterSize")
 			goal := eng.FieldIs("config", name, "GoalThroughputPerSec")
-			// MapUpdate on goalThroughputConfigs with key == this key and value from GoalThroughputPerSec
-			var upd *ssa.MapUpdate
+			// the bookkeeping update for this key: a MapUpdate on goalThroughputConfigs in createSampler, or a call of a
+			// helper whose body performs that update with its parameters
+			var upd ssa.Instruction
+			var updValue ssa.Value
+			updLocked := false
+			mutexF := eng.FieldIs("sample", "SamplerFactory", "mutex")
 			eng.Instrs(cs, func(in ssa.Instruction) {
-				mu, ok := in.(*ssa.MapUpdate)
-				if ok && loadsField(mu.Map, gtc) && mu.Key == k.(ssa.Value) {
-					upd = mu
+				switch y := in.(type) {
+				case *ssa.MapUpdate:
+					if loadsField(y.Map, gtc) && y.Key == k.(ssa.Value) {
+						upd, updValue, updLocked = in, y.Value, lockedAt(y, mutexF)
+					}
+				case *ssa.Call:
+					h := y.Call.StaticCallee()
+					if h == nil || h.Blocks == nil || x.P.FuncRel(h) != "sample" {
+						return
+					}
+					eng.Instrs(h, func(i2 ssa.Instruction) {
+						mu, ok := i2.(*ssa.MapUpdate)
+						if !ok || !loadsField(mu.Map, gtc) {
+							return
+						}
+						ki, vi := -1, -1
+						for i, p := range h.Params {
+							if mu.Key == ssa.Value(p) {
+								ki = i
+							}
+							if mu.Value == ssa.Value(p) {
+								vi = i
+							}
+						}
+						if ki < 0 || vi < 0 || ki >= len(y.Call.Args) || vi >= len(y.Call.Args) || y.Call.Args[ki] != k.(ssa.Value) {
+							return
+						}
+						upd, updValue, updLocked = in, y.Call.Args[vi], lockedAt(mu, mutexF) || lockedAt(in, mutexF)
+					})
 				}
 			})
 			if upd == nil {
 				c.Violate(rSib, name, x.Pos(k), name+" has UseClusterSize but the factory never records its configured goal: the goal is never rescaled when the cluster size changes (sibling throughput samplers do record it)")
 				continue
 			}
-			okVal := loadsField(upd.Value, goal)
+			okVal := loadsField(updValue, goal)
 			// exactly when UseClusterSize
 			mk := func(t eng.Tri) *eng.Assume {
 				return &eng.Assume{Bool: func(v ssa.Value) eng.Tri {
@@ -589,9 +619,9 @@ func c13(x *Ctx) {
 					return eng.Unknown
 				}}
 			}
-			rOff := eng.ReachableSinks(cs, mk(eng.False), k, func(in ssa.Instruction) bool { return in == ssa.Instruction(upd) })
+			rOff := eng.ReachableSinks(cs, mk(eng.False), k, func(in ssa.Instruction) bool { return in == upd })
 			rOn := eng.Explore(eng.Query{Fn: cs, Assume: mk(eng.True), Start: k, Classify: func(in ssa.Instruction, _ eng.Facts) eng.Event {
-				if in == ssa.Instruction(upd) {
+				if in == upd {
 					return eng.EvSink
 				}
 				if _, ok := eng.IsCall(in, "(sample.Sampler).Start"); ok {
@@ -601,7 +631,7 @@ func c13(x *Ctx) {
 			}})
 			// under UseClusterSize every path to sampler.Start passes the update: check no path reaches Start without sink
 			rOn2 := eng.Explore(eng.Query{Fn: cs, Assume: mk(eng.True), Start: k, Classify: func(in ssa.Instruction, _ eng.Facts) eng.Event {
-				if in == ssa.Instruction(upd) {
+				if in == upd {
 					return eng.EvKill
 				}
 				if _, ok := eng.IsCall(in, "(sample.Sampler).Start"); ok {
@@ -611,7 +641,7 @@ func c13(x *Ctx) {
 			}})
 			_ = rOn
 			// under the mutex
-			locked := lockedAt(upd, eng.FieldIs("sample", "SamplerFactory", "mutex"))
+			locked := updLocked
 			switch {
 			case !okVal:
 				c.Violate(rSib, name, x.Pos(upd), "the recorded goal is not the configuration's GoalThroughputPerSec")
